@@ -39,11 +39,18 @@ func (c17) Gen(r *rand.Rand, tier string, run int) *core.Case {
 			var op core.Op
 			switch k := r.IntN(10); {
 			case k < 3:
-				op = core.Op{Kind: "make", X: int64(r.IntN(3))} // 0 keep, 1 one-shot, 2 never-match
+				// 0 keep, 1 one-shot, 2 never-match, 3 one-shot with an unbuffered queue and a
+				// lazy reader, 4 keep with an unbuffered queue and a lazy reader (so that
+				// dispatch meets a full queue and answers calls with an error)
+				op = core.Op{Kind: "make", X: int64(r.IntN(5)), Y: int64(r.IntN(6))}
 			case k < 6:
 				op = core.Op{Kind: "remove", X: int64(r.IntN(4)), Y: int64(r.IntN(14))} // X: 0,1 own live; 2 stale/any known; 3 random id Y
 			default:
-				op = core.Op{Kind: "frame", X: int64(1 + r.IntN(8)), Y: int64(r.IntN(40))}
+				typ := 1 + r.IntN(8)
+				if r.IntN(3) == 0 {
+					typ = 1 // a call: dispatch answers it with an error when a queue is full
+				}
+				op = core.Op{Kind: "frame", X: int64(typ), Y: int64(r.IntN(40))}
 			}
 			op.Actor = a
 			c.Ops = append(c.Ops, op)
@@ -133,7 +140,7 @@ func (c17) Run(c *core.Case, env *core.Env) {
 			for _, op := range by[a] {
 				switch op.Kind {
 				case "make":
-					mine = append(mine, c17make(env, st, a, int(op.X)))
+					mine = append(mine, c17make(env, st, a, int(op.X), int(op.Y)))
 				case "remove":
 					id := int(op.Y)
 					if op.X < 2 && len(mine) > 0 {
@@ -189,18 +196,21 @@ func (c17) Run(c *core.Case, env *core.Env) {
 	env.Return(h, "", err)
 }
 
-func c17make(env *core.Env, st *c17state, a, kind int) *c17h {
+func c17make(env *core.Env, st *c17state, a, kind, lazy int) *c17h {
 	rec := &c17h{kind: kind}
 	queue := make(chan *net.Message, 4)
+	if kind >= 3 {
+		queue = make(chan *net.Message)
+	}
 	st.mu.Lock()
 	rec.idx = len(st.hs)
 	st.hs = append(st.hs, rec)
 	st.mu.Unlock()
 	filter := func(hdr *net.Header) (bool, bool) {
 		switch kind {
-		case 0:
+		case 0, 4:
 			return hdr.Action%2 == 0, true
-		case 1:
+		case 1, 3:
 			if hdr.Action%3 == 0 {
 				// self-removal: from now on the handler is on its way out
 				seq := zzsim.Seq()
@@ -222,6 +232,12 @@ func c17make(env *core.Env, st *c17state, a, kind int) *c17h {
 		st.mu.Unlock()
 	}
 	go func() {
+		if kind >= 3 {
+			// a reader that is late: the queue looks full to dispatch
+			for j := 0; j < 2+3*lazy; j++ {
+				zzsim.Yield("h.lazy-reader")
+			}
+		}
 		for range queue {
 			st.mu.Lock()
 			rec.msgs++
@@ -296,7 +312,7 @@ func (c17) Check(c *core.Case, env *core.Env, res zzsim.Result, v *core.Verdict)
 				e = s
 			}
 		}
-		if r.kind == 1 {
+		if r.kind == 1 || r.kind == 3 {
 			// a one-shot handler may leave as soon as a matching frame was written
 			for _, fs := range st.frameSeqs {
 				if fs > r.makeCall && fs < e {
@@ -373,7 +389,7 @@ func (c17) Check(c *core.Case, env *core.Env, res zzsim.Result, v *core.Verdict)
 					e = s
 				}
 			}
-			if r.kind == 1 {
+			if r.kind == 1 || r.kind == 3 {
 				for _, fs := range st.frameSeqs {
 					if fs > r.makeCall && fs < e {
 						e = fs
